@@ -238,3 +238,16 @@ pinst!(c07c_print_expanded, false, false);
 pinst!(c07c_print_compressed, true, false);
 pinst!(c07c_write_float_expanded, false, true);
 pinst!(c07c_write_float_compressed, true, true);
+
+harness!(c07a_fuzzy_equals_transitive, {
+    let (a, c0) = near_centre();
+    let b: f64 = kani::any();
+    let c: f64 = kani::any();
+    kani::assume(b >= c0 - 3e-11 && b <= c0 + 3e-11 && c >= c0 - 3e-11 && c <= c0 + 3e-11);
+    // equal numbers share a 1e-11 bucket, so equality is transitive (and `==` is an equivalence on numbers)
+    if fuzzy_equals(a, b) && fuzzy_equals(b, c) {
+        assert!(fuzzy_equals(a, c), "C07a/C09: fuzzy equality is not transitive");
+        kani::cover!(a != b && b != c && a != c, "three_distinct_equal");
+    }
+    kani::cover!(true, "end");
+});
